@@ -13,7 +13,7 @@ KNOWN = os.path.join(HERE, "known_findings.json")
 
 REPLAY_HEADER = '''#!/usr/bin/env python
 """stand-alone replay of a counterexample found by /verif (property %(pid)s, %(kind)s).
-Run:  cd /repo && /venv/bin/python %(path)s      exit 1 = the violation reproduces, 0 = it does not."""
+Run:  cd /repo && /verif/.venv/bin/python %(path)s      exit 1 = the violation reproduces, 0 = it does not."""
 import sys, os
 sys.path.insert(0, os.environ.get("MAKO_TREE", "/repo"))
 def _crash(t, v, tb):
